@@ -118,6 +118,7 @@ def units(tier):
             for f in range(len(ITEMS)):
                 for g in range(len(ITEMS)):
                     us.append({'kind': kind, 'L': L, 'first': [f, g]})
+    us.append({'two': True})
     return us
 
 
@@ -210,8 +211,45 @@ def judge(acc, kind, seq, r, text, seen):
         acc.guard('duplicates_kept')
 
 
+# Two separate lot lists in one tract description (an aliquot between them), the second one starting with - or repeating - the text of
+# the first: each list still denotes exactly its own expansion, in reading order.
+TWO_LISTS = [('Lot 1', [1]), ('Lot 10', [10]), ('Lots 1 - 3', [1, 2, 3]), ('Lots 1 - 30', list(range(1, 31))), ('Lot 7', [7]),
+             ('Lot 7 thru 9', [7, 8, 9]), ('Lots 5 - 3', [5, 4, 3]), ('Lot 11 thru Lot 13', [11, 12, 13]), ('Lot 2', [2])]
+TWO_SEPS = [', NE/4, ', '; SE/4NW/4; ', '\nALL\n', ', N/2 and the ']
+
+
+def two_lists_case(acc, a, b, sep):
+    (ta, na), (tb, nb) = TWO_LISTS[a], TWO_LISTS[b]
+    text = ta + sep + tb
+    key = f"two|{text}"
+    case = {'two': True, 'a': a, 'b': b, 'sep': sep, 'text': text}
+    want = [f"L{n}" for n in na + nb]
+    try:
+        t = _p.Tract(text, trs='154n97w14', parse_qq=True)
+        got, il = list(t.lots), list(t.ilots)
+        d = _p.PLSSDesc('T154N-R97W Sec 14: ' + text, parse_qq=True)
+        got_d = list(d.tracts[0].lots)
+    except Exception as ex:  # noqa
+        acc.case(key, 'EXC')
+        acc.violation('exception', f"C05:exception:{key}", case, got=f"{type(ex).__name__}: {ex}")
+        return
+    acc.case(key, got)
+    acc.states += 1
+    acc.transitions += 1
+    if got != want or il != na + nb or got_d != want:
+        acc.violation('lots', f"C05:lots:two_lists:{text}", case, got=[got, il, got_d], exp=want)
+    else:
+        acc.guard('two_lists_ok')
+
+
 def run_unit(unit, tier):
     acc = Acc()
+    if unit.get('two'):
+        for a in range(len(TWO_LISTS)):
+            for b in range(len(TWO_LISTS)):
+                for sep in TWO_SEPS:
+                    two_lists_case(acc, a, b, sep)
+        return acc.result()
     kind, L = unit['kind'], unit['L']
     pool = ITEMS + EXTRA[kind]
     seen = set()
@@ -231,6 +269,9 @@ def run_unit(unit, tier):
 
 def replay(case):
     acc = Acc()
+    if case.get('two'):
+        two_lists_case(acc, case['a'], case['b'], case['sep'])
+        return acc.viol
     seq = tuple(tuple(i) for i in case['seq'])
     judge(acc, case['kind'], seq, case['rendering'], render(case['kind'], seq, case['rendering']), set())
     return acc.viol
@@ -239,7 +280,7 @@ def replay(case):
 def guards(info):
     g = info['guards']
     out = []
-    for name in ('descending_seen', 'duplicates_kept'):
+    for name in ('descending_seen', 'duplicates_kept', 'two_lists_ok'):
         if not g.get(name):
             out.append(f"never observed: {name}")
     return out
